@@ -814,8 +814,8 @@ func ruleKillCtx(c *Ctx) {
 				}
 			}
 			construct := "context of runner.Kill"
-			if org == "context.Background" || org == "context.TODO" {
-				c.R.Hold("R-EXIT/killctx", p.Pos(call), f.Name, construct, "context.Background(): the kill request cannot be pre-empted by an expired deadline", true)
+			if org == "context.Background" || org == "context.TODO" || org == "context.WithoutCancel" {
+				c.R.Hold("R-EXIT/killctx", p.Pos(call), f.Name, construct, org+"(): the kill request cannot be pre-empted by an expired deadline or a cancellation", true)
 			} else {
 				c.R.Violate("R-EXIT/killctx", p.Pos(call), f.Name, construct,
 					"the plugin is killed with a context that can already be cancelled or expired (origin: "+org+"): a runner that honours its context refuses the kill, e.g. after a start timeout, and the process is left running", nil)
